@@ -344,10 +344,6 @@ func (check typecheck) binaryExpr(n *node) error {
 		if zeroConst(c1) && (c0.rval.IsValid() || isInt(c0.typ.TypeOf())) {
 			return n.cfgErrorf("invalid operation: division by zero")
 		}
-		if c0.rval.IsValid() && c1.rval.IsValid() {
-			// Avoid constant conversions below to ensure correct constant integer quotient.
-			return nil
-		}
 	}
 
 	// Ensure that if values are untyped, both are converted to the same type
@@ -376,13 +372,13 @@ func (check typecheck) binaryExpr(n *node) error {
 
 // zeroConst returns true if n is a numeric constant, typed or not, equal to zero.
 func zeroConst(n *node) bool {
-	if !n.rval.IsValid() || n.rval.CanSet() || !isNumber(n.typ.TypeOf()) {
+	if !n.rval.IsValid() || !isNumber(n.typ.TypeOf()) {
 		return false
 	}
 	if c, ok := n.rval.Interface().(constant.Value); ok {
-		return constant.Sign(c) == 0
+		return constant.Sign(c) == 0 // The result of an operation on untyped constants can be set.
 	}
-	return n.rval.IsZero()
+	return !n.rval.CanSet() && n.rval.IsZero()
 }
 
 func (check typecheck) index(n *node, max int) error {
